@@ -418,6 +418,14 @@ def run(ctx):
             zero = [a for a in tlc.coverage_zero_actions(r.out)]
             if zero:
                 raise tlc.TLCError(f"{c}: actions never taken: {zero}")
+    # the model of the tree before the fix: commits must reproduce both defects (the spec can tell them apart)
+    for cfg, inv in (("Features_orig", "Half"), ("Features_orig_succeeds", "Succeeds")):
+        r = tlc.run("mc/MC_Features.tla", f"mc/{cfg}.cfg", workers=2, timeout=600)
+        ctx.tlc(r, cfg)
+        if r.ok or r.invariant_violated != inv:
+            raise tlc.TLCError(f"{cfg}: the implementation layer with Variant = \"orig\" should violate {inv} (F7 / F7b) but TLC reports "
+                               f"{r.invariant_violated}")
+    ctx.cov["orig_variant_counterexamples"] = ["Half (F7b: swapped rows stored before re-inversion)", "Succeeds (F7: trough + offset = length)"]
     _t(ctx, "model checking")
     # 2. spec -> code: exported cases with expected outcomes
     recs = []
@@ -475,7 +483,8 @@ def run(ctx):
     rnd.shuffle(recs)
     verdicts = validate(ctx, recs, "boxes")
     _t(ctx, "boxes validated")
-    verdicts_r = validate(ctx, real_recs, "realistic") if real_recs else []
+    if real_recs:
+        validate(ctx, real_recs, "realistic")
     _t(ctx, "realistic validated")
     bad = {wkey(recs[v["index"]]) for v in verdicts}
     for key, exp, got in mism:
@@ -523,7 +532,6 @@ def compare_expected(recs, expected):
 
 
 def float_laws(ctx, real, rnd):
-    import ibldsp.waveforms as wf       # noqa: F401
     byshape = {}
     for w in real:
         a = np.nan_to_num(w)
